@@ -105,7 +105,14 @@ func (c *Ctx) repCaseWith(typeKey string, sp Spec, b Bars, reg string) bool {
 	if err != nil {
 		panic(err)
 	}
-	dates, cols, hung, err := runReport(inst, b, 3*time.Second)
+	adm, err := admTermRec(&sp, 0)
+	if err != nil {
+		panic(err)
+	}
+	dates, cols, hung, err := runReport(inst, b, time.Second)
+	if err == nil && hung {
+		dates, cols, hung, err = runReport(inst, b, 6*time.Second)
+	}
 	if err != nil {
 		panic(err)
 	}
@@ -124,8 +131,8 @@ func (c *Ctx) repCaseWith(typeKey string, sp Spec, b Bars, reg string) bool {
 			desc = append(desc, fmt.Sprintf("%s:%d", col.label, len(col.num)))
 		}
 	}
-	term := fmt.Sprintf("(let c_ := %s in CRep %s %s %s (adm_%s c_) %s %s %s %s)", cfg, atF(t.Coq+"_Report", "c_ (EIn 0)"), atF(t.Coq+"_Compute", "c_ (EIn 0)"),
-		warm, t.Coq, coqBars(b), coqListZ(dates), coqList(items), coqBool(hung))
+	term := fmt.Sprintf("(let c_ := %s in CRep %s %s %s %s %s %s %s %s)", cfg, atF(t.Coq+"_Report", "c_ (EIn 0)"), atF(t.Coq+"_Compute", "c_ (EIn 0)"),
+		warm, adm, coqBars(b), coqListZ(dates), coqList(items), coqBool(hung))
 	c.Count("type/" + typeKey)
 	c.Count("regime/" + reg)
 	c.Count(fmt.Sprintf("n<=%d", bucket(n)))
